@@ -11,6 +11,25 @@ COMMON_NOTE = ("Trusted: Coq 8.16.1 kernel (vm_compute, no native_compute), harn
                "Print Assumptions output is copied into the evidence. ")
 
 CHECKS = {
+    "C03": dict(
+        text="Coq theorems C03_{rpms,modules,extra}_roundtrip: for every normal compose section and ANY payload mapping (hence "
+             "every mapping built by add histories, C03_rpms_built_by_add), load (dump x) returns exactly the compose section "
+             "and mapping written; C03_rpms_second_dump: the second write is the same document, hence the same bytes. The proofs "
+             "run the regenerated Header/Compose validators symbolically and use closed computations on the regenerated VERSION. "
+             "Tie: add histories are dumped, loaded and dumped again by the real library and by the model; text compared byte "
+             "for byte (Base/Json.print_json vs json.dump).",
+        note="json text parsing/printing is CPython's; print_json is a model of the writer validated on every case.",
+        design="DESIGN.md section 6 C03"),
+    "C09": dict(
+        text="Coq theorems: C09_reach_inv (in every manifest of format >= 1.1 reachable from a fresh one by ANY sequence of add "
+             "calls, images with equal identity have equal checksums), C09_add_preserves_inv, C09_add_accepts_iff (incl. the "
+             "documented pre-1.1 exemption), C09_add_refusal_class (ValueError), C09_identify_spec (identity = the seven "
+             "documented attributes, against the regenerated UNIQUE_IMAGE_ATTRIBUTES), C09_identify_ser (object identity = "
+             "identity of the serialised dict, using the regenerated _validate_merges_variants). Tie: op-sequence differential "
+             "runs over small identity domains, header versions below/at/above 1.1 and fresh manifests.",
+        note="Python == on values modelled structurally (bool as int, dicts as mappings). Loaded-document collisions are "
+             "covered by the load correspondence (C07/C02 suites) since every loaded image goes through the same add.",
+        design="DESIGN.md section 6 C09"),
     "C12": dict(
         text="Coq refinement theorems: C12_rpms_add_refines (an accepted Rpms.add is exactly one map update at (variant, arch, "
              "canonical SRPM NEVRA, canonical NEVRA) with the given path/category and lower-cased sigkey; every other entry "
